@@ -96,8 +96,8 @@ Definition hist_step (ea ep : list T) (m : list (list T)) (s : sample) : list (l
 Definition hist2d (ea ep : list T) (ss : list sample) : list (list T) :=
   fold_left (hist_step ea ep) ss (zeros (pred (length ea)) (pred (length ep))).
 
-(* azimuth, polar, _ = v.to_polar(): polar = arccos(z / r) is nan when r = 0,
-   where r is the radius AFTER Vector3d.azimuth zeroed the small components *)
+(* azimuth, polar, _ = v.to_polar(): polar = arccos(z / r) is nan when r = 0
+   (the zero vector only: to_polar leaves the vector as given) *)
 Definition angles (v : vec3 (T:=T)) : option (T * T) :=
   let '(x, y, z) := v in
   let '(a, p, r) := to_polar O false x y z in
